@@ -31,6 +31,7 @@ func init() {
 		{"caco3", "", "newSubBuilds"}, {"caco3", "", "newBundle"}, {"caco3", "bundle", "meta"},
 		{"caco3", "Builder", "buildNode"}, {"caco3", "Builder", "buildNodes"}, {"caco3", "Builder", "Build"},
 		{"caco3", "fileSet", "meta"}, {"caco3", "", "makeDigest"}, {"caco3", "", "buildNodeDigest"},
+		{"lexing", "ErrorList", "Add"}, {"lexing", "Parser", "SkipErrStmt"}, {"jsonx", "", "parseSeries"},
 	}
 	register("Caco3Loader", genCaco3Loader)
 }
@@ -228,6 +229,40 @@ func genCaco3Loader(repo string, fs facts) (string, error) {
 		})
 	}
 
+	// jsonx / lexing: error recovery consumes input, also beyond the error cap
+	if lp, err := loadPkg(repo, "lexing"); err == nil {
+		if fd := lp.fn("ErrorList", "Add"); fd != nil {
+			j := stmtIndex(lp, fd.Body, "lst.inJail = true")
+			c := stmtIndex(lp, fd.Body, "len(lst.errs) >= lst.Max", "return")
+			// stmtIndex matches the first statement containing the text; the jail statement must be a plain assignment
+			plain := j >= 0 && lp.src(fd.Body.List[j]) == "lst.inJail = true"
+			shape["errorJailBeforeCap"] = plain && c >= 0 && j < c
+		}
+		if fd := lp.fn("Parser", "SkipErrStmt"); fd != nil {
+			src := lp.src(fd.Body)
+			shape["skipErrStmtAdvances"] = strings.Contains(src, "p.Next()") && stmtIndex(lp, fd.Body, "if !p.InError()", "return false") == 0 &&
+				strings.Contains(src, "p.BailOut()")
+		}
+	} else {
+		notes = append(notes, "lexing: "+err.Error())
+	}
+	if jp, err := loadPkg(repo, "jsonx"); err == nil {
+		if fd := jp.fn("", "parseSeries"); fd != nil {
+			ok := false
+			ast.Inspect(fd.Body, func(n ast.Node) bool {
+				ifs, isIf := n.(*ast.IfStmt)
+				if isIf && jp.src(ifs.Cond) == "name == nil" && len(ifs.Body.List) == 2 &&
+					jp.src(ifs.Body.List[0]) == "p.SkipErrStmt(tokSemi)" && jp.src(ifs.Body.List[1]) == "continue" {
+					ok = true
+				}
+				return true
+			})
+			shape["parseSeriesSkipsBadStatement"] = ok
+		}
+	} else {
+		notes = append(notes, "jsonx: "+err.Error())
+	}
+
 	// the name argument of makeDigest in every meta method
 	fl := newFlow(p)
 	var digestNames [][3]string
@@ -258,7 +293,8 @@ func genCaco3Loader(repo string, fs facts) (string, error) {
 	var keys []string
 	for _, k := range []string{"dedupDirs", "subDirsSorted", "registerBeforeSubDirs", "pushFirst", "popDeferred", "loadedConsulted",
 		"loadedAfterDeps", "pushRejectsOnStack", "popRemovesTop", "registerRejectsEmpty", "registerRejectsDup",
-		"repoDirsSorted", "errorsStopBeforeLoad", "errorsStopAfterLoad", "buildMemoConsulted", "buildMemoFilled", "depsBeforeBuild", "srcTargetContinues"} {
+		"repoDirsSorted", "errorsStopBeforeLoad", "errorsStopAfterLoad", "buildMemoConsulted", "buildMemoFilled", "depsBeforeBuild", "srcTargetContinues",
+		"errorJailBeforeCap", "skipErrStmtAdvances", "parseSeriesSkipsBadStatement"} {
 		keys = append(keys, k)
 	}
 
